@@ -120,6 +120,27 @@ CHECKS = {
                       "concurrent programs write to disjoint slots and sort their logs",
         "assumptions": ["the stand-in reproduces the host's responses (k*2, error string 'TypeError: msg') exactly"],
     },
+    "C08": {
+        "engines": NATIVE,
+        "level": "exploration",
+        "rule": "16 protocol programs with 1..6 orders (sequential and dependent awaits, Promise.all/race/any/allSettled over host "
+                "promises, error responses, fire-and-forget, nested async functions, the same promise awaited twice) under ALL "
+                "combinations of: which of the first three orders are answered by a promise settled later (8 masks) x settlement "
+                "order (oldest/newest first, shuffles) x one-at-a-time vs batched settlement x 0/2 spurious steps x host misuse "
+                "(none / answer to an unknown id / late duplicate answer / answer ahead of issue), at GC thresholds 1 and default, "
+                "with collect() after host actions; plus the 59 await/concurrency programs of C07 under a reduced policy set. A run "
+                "is non-trivial when at least one suspension was observed; (program, policy) pairs are distinct by construction",
+        "exhaustive": "the policy product above for every program with <= 3 deferrable orders",
+        "floor": {"quick": 5000, "thorough": 8000},
+        "technique": "runtime monitoring: online ledger automaton over the boundary history (StepResult lists, fulfil/settle calls, "
+                     "H4 quiescence at Complete), bounded-progress counters instead of wall-clock",
+        "level_text": "Exactly-once, fresh ids, intact payloads, cancellations of issued orders only and once, no Suspended with "
+                      "nothing left for the host to do, progress within 300000 steps after the host answered, Complete only when "
+                      "nothing is outstanding; host misuse must leave the result unchanged.",
+        "level_note": "liveness is restated as bounded progress on step counters; answers to ids the program never issued are host "
+                      "misuse and only required to be harmless",
+        "assumptions": ["unique payload ids make the history unambiguous"],
+    },
     "C09": {
         "engines": NATIVE,
         "level": "exploration",
